@@ -321,8 +321,11 @@ def rewrite_patterns():
     """regexes around the `.*` stripping of the rewrite pass: the pattern that IS `.*`, doubled,
     overlapping, escaped, inside groups, in lists and in regex sets built by shake"""
     out = []
-    docs = [{"f": "foo"}, {"f": ""}, {"f": "xfoox"}, {"f": ".*"}, {"f": "a.b"}, {"f": 5}, {"f": ["x", "foo"]}, {}]
-    pats = ["?.*", "i?.*", "?.*.*", "?.*.*.*", "?.*foo", "?foo.*", "?.*foo.*", "?.*.*foo.*.*", "?..*", "?.*.", "?\\.*", "?.*\\.*", "?(.*)", "?.*|foo",
+    docs = [{"f": "foo"}, {"f": ""}, {"f": "xfoox"}, {"f": ".*"}, {"f": "a.b"}, {"f": 5}, {"f": ["x", "foo"]}, {},
+            # `.` does not match a line break and `^` / `$` only the ends of the value: an anchor next to the
+            # stripped `.*` must stay
+            {"f": "x\nfoo"}, {"f": "foo\nx"}, {"f": "foo\n"}, {"f": "\nfoo"}, {"f": "x\nfoo\ny"}, {"f": "\n"}]
+    pats = ["?^.*foo", "?foo.*$", "?^.*foo.*$", "i?^.*FOO", "?^.*foo$", "?^foo.*$", "?.*", "i?.*", "?.*.*", "?.*.*.*", "?.*foo", "?foo.*", "?.*foo.*", "?.*.*foo.*.*", "?..*", "?.*.", "?\\.*", "?.*\\.*", "?(.*)", "?.*|foo",
             "?foo|.*", "?.*?", "?.*?foo", "?.*+", "?.*{2}", "?.*(", "?[.*]", "?.", "?", "i?.*FOO.*", "?.*\\", "?^.*$", "?.*$", "?^.*"]
     for p in pats:
         out.append(({"A": {"f": p}, "condition": "A"}, docs))
